@@ -50,7 +50,8 @@ def run_row(args):
         p = subprocess.run([C.REPLAY_PY, "s.py"], cwd=d, env=env, capture_output=True, text=True, timeout=120)
         m = re.search(r"RESULT (.*)", p.stdout)
         out = json.loads(m.group(1)) if m else dict(error="no result: " + p.stderr[-200:])
-        out.update(env=envname, pre=list(pre), stdout=p.stdout[-300:], reported_unknown=("unknown backend" in p.stdout))
+        out.update(env=envname, pre=list(pre), stdout=p.stdout[-300:], reported_unknown=("bogus" in p.stdout.split("RESULT")[0] or "unknown" in p.stdout.split("RESULT")[0].lower()
+                                    or "bogus" in p.stderr))
         return out
     finally:
         shutil.rmtree(d, ignore_errors=True)
